@@ -96,6 +96,44 @@ try:
         BB.BzrBranch.import_last_revision_info_and_tags = orig_import
     if (master2.branch.last_revision_info(), co2.branch.last_revision_info()) != snap:
         verdict(True, "a failed master update moved a tip", observed=str((master2.branch.last_revision_info(), co2.branch.last_revision_info())))
+    # 5. the master is locked BEFORE it is compared: a commit by somebody else that lands while we wait for the master's lock is noticed
+    md3, master3 = new_tree("master3")
+    edit(md3, "1"); master3.add(["f"]); master3.commit("m1", committer="t <t@e.x>")
+    coa = master3.branch.create_checkout(os.path.join(base, "coa"))
+    other = master3.branch.create_checkout(os.path.join(base, "cob"))
+    edit(os.path.join(base, "coa"), "ours")
+    open(os.path.join(base, "cob", "g"), "w").write("theirs\n"); other.add(["g"])
+    orig_lock = BB.BzrBranch.lock_write
+    fired = []
+
+    def lock_after_the_other_commit(self, *a, **k):
+        if not fired and self.base == master3.branch.base:
+            fired.append(1)
+            BB.BzrBranch.lock_write = orig_lock
+            try:
+                fired.append(other.commit("theirs", committer="o <o@e.x>"))
+            finally:
+                BB.BzrBranch.lock_write = lock_after_the_other_commit
+        return orig_lock(self, *a, **k)
+    BB.BzrBranch.lock_write = lock_after_the_other_commit
+    refused = False
+    try:
+        try:
+            coa.commit("ours", committer="t <t@e.x>")
+        except errors.BoundBranchOutOfDate:
+            refused = True
+        except errors.OutOfDateTree:
+            refused = True
+    finally:
+        BB.BzrBranch.lock_write = orig_lock
+    if len(fired) == 2 and not refused:
+        mb3 = master3.branch
+        with mb3.lock_read():
+            hist = list(mb3.repository.get_graph().iter_lefthand_ancestry(mb3.last_revision()))
+        if fired[1] not in hist:
+            verdict(True, "a commit that landed in the master while our bound commit waited for the master lock was not noticed: "
+                          "our commit was accepted and the other revision dropped out of the master's history",
+                    input="other checkout commits when our commit first asks for the master's write lock")
     verdict(False, "no failing scenario")
 finally:
     shutil.rmtree(base, ignore_errors=True)
